@@ -22,6 +22,7 @@ RULE = (
     "pairs, cooler load -f coo|bg2 (small --chunksize => several chunks) and, thorough tier, TabixAggregator on "
     "pysam-indexed files. Oracle: per record by linear scan of the table. Non-trivial = >=1 record on a bin edge "
     "or chromosome end and >=1 reflected or dropped record. Distinct by sha1 of the canonical case."
+    " Also: missing chromosome labels (None/'NA'/'null', dropped like any unlisted name); bin tables with lexically ordered categorical chrom (refusal accepted); sanitizer options left to their presets; chromosomes given as ids already (decode_chroms=False, with and without validation, every tril action); `cload pairs -N --input-copy-status duplex`; twice as many tabix cases."
 )
 ASSUMPTIONS = [
     "a record with an unlisted chromosome on either side is dropped before positions are looked at (as the code does); "
